@@ -349,11 +349,24 @@ Definition cond_type (d1 d2 : cty) : option cty :=
     | Arith a, Arith b => Some (Arith (uac a b))
     | _, _ => None
     end.
-Definition common_type_m (t1 t2 : cty) : option cty :=
-  match cond_type (decay_m t1) (decay_m t2) with
+(* detail::common_type_2_impl<D1, D2>: decay_t<cond_t<D1, D2>> when the conditional expression is valid *)
+Definition common_type_2_impl_m (d1 d2 : cty) : option cty :=
+  match cond_type d1 d2 with
   | Some r => Some (decay_m r)
   | None => None
   end.
+(* common_type<T1, T2> : detail::common_type_2_dispatch<T1, T2, decay_t<T1>, decay_t<T2>>
+     - T1, T2 both decayed types (the partial specialisation <D1, D2, D1, D2>): common_type_2_impl<T1, T2>;
+     - otherwise: common_type<D1, D2> ([meta.trans.other]/3.3), which may be a program-defined
+       specialisation; the universe of Types.v has none, and D1, D2 are decayed (decay is idempotent,
+       C15_trait_laws), so that instantiation takes the first clause: common_type_2_impl<D1, D2>.
+   (This is the REPAIRED header; the pinned tree went to common_type_2_impl<D1, D2> directly and so
+   ignored specialisations of common_type<D1, D2> for cv- / reference-qualified arguments.) *)
+Definition common_type_m (t1 t2 : cty) : option cty :=
+  let d1 := decay_m t1 in
+  let d2 := decay_m t2 in
+  if is_same_m t1 d1 && is_same_m t2 d2 then common_type_2_impl_m t1 t2
+  else common_type_2_impl_m d1 d2.
 
 (** * smallest_size_t<N> (etl extension): a chain of `N < static_cast<U>(-1)` tests *)
 Definition smallest_size_t_m (n : Z) : arith :=
